@@ -176,7 +176,7 @@ def replay_file(path):
 
 
 BOUNDS = {
-    "lex": "tokenizer vs an independent reading of the lexical rules: all concatenations of <= 3 lexemes from a 44-lexeme alphabet (symbols, words, digits, quotes, braces, whitespace, NUL, stray and non-ASCII characters, long runs of multi-byte digits), all strings of <= 3 (thorough: 4) characters over a 53-character alphabet, plus seeded random strings of 4-11 lexemes",
+    "lex": "tokenizer vs an independent reading of the lexical rules: all concatenations of <= 3 lexemes from a 44-lexeme alphabet (symbols, words, digits, quotes, braces, whitespace, NUL, stray and non-ASCII characters, long runs of multi-byte digits), all strings of <= 3 (thorough: 4) characters over a 55-character alphabet, plus seeded random strings of 4-11 lexemes",
     "index": "column index of every free variable and meaning preservation under orderings: 11 formulas x 20 orderings (permutations, subsets, supersets, gaps, duplicates, API vectors with descending / gapped ids, orderings that reverse a quantifier list) plus seeded random formula/ordering pairs (positional and shuffled explicit ids)",
     "formula": "tokenize -> parse -> free variables -> eval against an independent truth-table evaluator: corner-case list plus seeded random formulas of depth <= 3 over 4 names",
     "parse": "real parser vs an independent recursive-descent parser on real tokens: all token sequences of length <= 3 (4 in thorough) over 22 lexemes plus random and mutated sentences",
